@@ -127,7 +127,20 @@ func proposePL(r *gen.Rand, t *ref.VersionTraits, cur *ref.Value, creators []str
 				n.Set(k, lvl(r, t))
 			}
 		case 8:
-			switch r.Intn(4) {
+			switch r.Intn(7) {
+			case 4:
+				// JSON null where a level or a map of levels belongs: present, and neither an integer nor an object
+				c.Set(gen.Pick(r, []string{"users", "events", "notifications"}), ref.NullV())
+			case 5:
+				c.Set(gen.Pick(r, []string{"ban", "kick", "invite", "redact", "state_default", "events_default", "users_default"}), ref.NullV())
+			case 6:
+				k := gen.Pick(r, []string{"users", "events", "notifications"})
+				m := c.Get(k)
+				if m == nil || m.K != ref.Obj {
+					m = ref.O()
+					c.Set(k, m)
+				}
+				m.Set(map[string]string{"users": gen.Pick(r, authUsers), "events": "m.room.topic", "notifications": "room"}[k], ref.NullV())
 			case 0:
 				c.Set("users", ref.O("not a user id", ref.I(10)))
 			case 1:
@@ -259,7 +272,8 @@ func genAuthCase(r *gen.Rand, w *world) (*authCase, error) {
 		}
 		ac.ev, err = w.build("com.example.custom", strp(sk), sender, ref.O("x", ref.I(1)), nil, "")
 	case "tpi-event":
-		ac.ev, err = w.build("m.room.third_party_invite", strp("tok2"), sender, ref.O("display_name", ref.S("x"), "public_keys", ref.A()), nil, "")
+		// the token is the state key: any string, one that looks like a user ID included
+		ac.ev, err = w.build("m.room.third_party_invite", strp(gen.Pick(r, []string{"tok2", "tok2", "@sometoken", gen.Pick(r, authUsers)})), sender, ref.O("display_name", ref.S("x"), "public_keys", ref.A()), nil, "")
 	case "redaction":
 		red := fakeEventID(r, w.t)
 		if w.t.EventIDFormat != 1 {
@@ -288,6 +302,9 @@ func genAuthCase(r *gen.Rand, w *world) (*authCase, error) {
 			cc.Set("additional_creators", ref.A(ref.S(gen.Pick(r, []string{"@x:y.example", "not a user", "@:y"}))))
 		case 4:
 			cc.Set("creator", ref.NullV())
+		case 5:
+			// present, but null: neither a recognised version nor an array of user IDs
+			cc.Set(gen.Pick(r, []string{"room_version", "additional_creators"}), ref.NullV())
 		}
 		sk := strp("")
 		if r.Chance(0.1) && !w.t.Domainless {
